@@ -5,14 +5,14 @@ CFG = {
     "check_vo": "theories/Check/C16.vo", "prop_vo": "theories/Properties/C16.vo",
     "prop_file": "theories/Properties/C16.v",
     "theory_files": ["theories/Trees/Octree.v", "theories/Trees/Bvh.v", "theories/Trees/OctreeProofs.v",
-                     "theories/Trees/BvhProofs.v", "theories/Trees/ElemProofs.v"],
+                     "theories/Trees/BvhProofs.v", "theories/Trees/ElemProofs.v", "theories/Trees/CheckProofs.v"],
     "level_text": "Coq theorems about an executable model of trees/octree.go (newOctree, the five queries) and of "
                   "rendering/bvh.go (BVHNode.Hit) / hit.go (HitList.Hit): for every element list, every maximum depth and "
                   "every query the tree built by the model satisfies the containment invariant, and every tree satisfying "
                   "it answers ElementsContainingPoint / ElementsWithinRange / ElementsIntersectingRay / ClosestPoint exactly "
                   "like the exhaustive scan (same identities, minimal distance, the returned index is the element that "
                   "produced the point); BVH nearest hit equals the linear list's.  The model is tied to the Go code on "
-                  "every run: the dumped tree structure and every query result are compared with the model by vm_compute, "
+                  "every run: the implementation's dumped tree is tested against the invariant, the model's queries are evaluated on that tree and compared with the implementation's answers by vm_compute, "
                   "and a direct oracle (exhaustive scan over the implementation's own per-element answers) judges the output",
     "level_note": "Trusted: Coq kernel + vm_compute; hand-written model tied by differential correspondence only (generator "
                   "quality bounds it). Coordinates are exact (quarter grid, integers x4); the elements' own ClosestPoint / "
